@@ -363,6 +363,13 @@ def seq_family(tier="quick"):
     out.append(scenario("seq-timeout", chain(("T", Task("f1", TimeoutSeconds=3)), Z), workers={"f1": {"*": NONE}}, family="seq-timeout"))
     out.append(scenario("seq-task-timeout-late-reply", chain(("T", Task("f1", TimeoutSeconds=3, Catch=CATCH_ALL)), ("Z", Task("f2"))),
                         workers={"f1": {"*": NONE}, "f2": {"*": OK(1)}}, family="seq-task-timeout-caught"))
+    # one generic Resource (the long invoke form) used for different functions, within one execution and across two machines on one
+    # instance, mixed with the short form: every request goes to the queue of *its* function
+    di = chain(("I1", Invoke("f1", ResultPath="$.one")), ("I2", Invoke("f2", ResultPath="$.two")), ("T3", Task("f2", ResultPath="$.three")), ("I4", Invoke("f1", ResultPath="$.four")), Z)
+    out.append(scenario("seq-invoke-two-functions", di, workers={"f1": {"*": OK("from-f1")}, "f2": {"*": OK("from-f2")}}, family="seq-invoke-two-functions"))
+    out.append(multi("seq-invoke-two-machines", {"m": {"definition": chain(("I", Invoke("f1")), Z)}, "n": {"definition": chain(("I", Invoke("f2")), Z)}},
+                     [{"machine": "m", "name": "e1", "input": {"k": 1}}, {"machine": "n", "name": "e2", "input": {"k": 2}}],
+                     workers={"f1": {"*": OK("from-f1")}, "f2": {"*": OK("from-f2")}}))
     dp = chain(("A", Pass(Result=1, ResultPath="$.a")), Z)
     out.append(multi("seq-three-pass", {"m": {"definition": dp}},
                      [{"machine": "m", "name": "e%d" % i, "input": {"i": i}} for i in (1, 2, 3)]))
@@ -660,6 +667,10 @@ def child_family(tier="quick"):
     add("child-sync-in-map", chain(("M", Map(chain(("L", dict(launch("sync"), Parameters={"StateMachineArn": sm_arn("c"), "Input.$": "$", "Name.$": "$.nm"}))), ItemsPath="$.items")), Z), child_ok, form="sync-map",
         **{})
     out[-1]["starts"][0]["input"] = {"items": [{"nm": "c1"}, {"nm": "c2"}]}
+    # no Parameters field: the state's input *is* the request (and stays the raw input that ResultPath is applied to); no Name given
+    for form, res in (("sync2", "startExecution.sync:2"), ("start", "startExecution")):
+        add("child-%s-no-parameters-unnamed" % form, chain(("L", {"Type": "Task", "Resource": SFN + res, "ResultPath": "$.child"}), Z), child_ok, form="%s-unnamed" % form)
+        out[-1]["starts"][0]["input"] = {"StateMachineArn": sm_arn("c"), "Input": {"from": "parent", "n": 1}, "keep": [1, {"x": None}]}
     if tier == "thorough":
         # two synchronous children of one Map, one of which fails; a retried launch; a child launched by a child
         add("child-sync-in-map-one-fails", chain(("M", Map(chain(("L", dict(launch("sync"), Parameters={"StateMachineArn": sm_arn("c"), "Input.$": "$", "Name.$": "$.nm"}))), ItemsPath="$.items")), Z),
@@ -689,11 +700,23 @@ def child_family(tier="quick"):
     addtok("token-forged-then-valid", [dict(ok, mangle="forge", tag="forged"), ok], allowed=A42)
     addtok("token-truncated-then-valid", [dict(ok, mangle="truncate", tag="truncated"), ok], allowed=A42)
     addtok("token-notbase64-then-valid", [dict(ok, mangle="notbase64", tag="notbase64"), ok], allowed=A42)
+    # every way a token can be malformed, through both callback actions, before the valid callback
+    # (a well-formed token that no task received is the known finding of token-forged-then-valid; SendTaskHeartbeat is not implemented)
+    for act, base in (("success", ok), ("failure", fail)):
+        addtok("token-malformed-%s-then-valid" % act, [dict(base, mangle=m, tag="malformed")
+                                                      for m in ("truncate", "notbase64", "nosuffix", "nocolon", "binary", "suffix-only", "empty", "int", "list", "missing")] + [ok], allowed=A42)
     addtok("token-never", [], allowed=[["FAILED", "States.Timeout"]])
     addtok("token-late", [dict(ok, after_quiet=True, tag="late")], allowed=[["FAILED", "States.Timeout"]])
     addtok("token-rpc-reply-before-callback", [ok], workers={"ft": {"*": [["delay", ["ok", {"ignored": True}]]]}}, allowed=A42)
     for nm, val in (("string", "accepted"), ("number", 7), ("zero", 0), ("array", [1]), ("null", None), ("false", False)):
         addtok("token-rpc-%s-reply-before-callback" % nm, [ok], workers={"ft": {"*": [["delay", ["ok", val]]]}}, allowed=A42)
     addtok("token-rpc-error-reply", [ok], workers={"ft": {"*": [["delay", ["err", "E.rpc", "worker failed"]]]}}, allowed=A42 + [["FAILED", "E.rpc"]])
+    # the engine crashes and restarts while the token task is outstanding and its worker has answered (or is about to answer) the request
+    # itself: however that answer and the redelivered Task event are ordered afterwards, and whether or not the orphaned-reply handler
+    # has run before the callback comes, only the callback completes the task (or, the environment being slow, its time-out)
+    cr_ = {"op": "crash_restart", "instance": 1, "needs_request": "ft"}
+    addtok("token-crash-rpc-reply-then-callback", [cr_, dict(ok, after_idle=True)], workers={"ft": {"*": [["delay", ["ok", {"ignored": True}]]]}},
+           allowed=A42 + [["FAILED", "States.Timeout"]], schedule="timed", delay_budget=1)
+    addtok("token-crash-then-callback", [cr_, dict(ok, after_idle=True)], allowed=A42)
     addtok("token-caught", [fail], state=dict(tok, Catch=[{"ErrorEquals": ["E.cb"], "Next": "Z", "ResultPath": "$.err"}]), allowed=[["SUCCEEDED", None]])
     return out
